@@ -1,7 +1,7 @@
 (* Extract.v -- extraction of the executable specs and models to OCaml (ExtrOcamlBasic only; Z stays
    the extracted binary datatype; one OCaml module per Coq module).  Run from ocaml/gen. *)
 From Coq Require Import ExtrOcamlBasic ZArith List String FMapPositive.
-From HexVerif Require Import WMap Isa SimModel AsmModel AsmLayout AsmSpec AsmStatements CliModel Loader.
+From HexVerif Require Import WMap Isa SimModel SimIO AsmModel AsmLayout AsmSpec AsmStatements CliModel Loader.
 From HexVerif Require Import Vexp RtlSem TbModel.
 From HexVerif.gen Require RtlSv RtlV RtlVSynth RtlHex.
 From HexVerif Require Import XAst XSem IsaMon XCodegenExpr XCodegenStmt XCodegenProgram.
@@ -11,9 +11,10 @@ Extraction Language OCaml.
 Separate Extraction WMap.rd WMap.wr WMap.zero WMap.empty WMap.load_words PositiveMap.elements
   Isa.step Isa.run Isa.boot Isa.words_of_bytes
   Vexp.eval RtlSv.design RtlV.design RtlVSynth.design RtlHex.design RtlSem.cycle RtlSem.outs RtlSem.wire RtlSem.getv
-  TbModel.run TbModel.power_on TbModel.Current TbModel.Previous TbModel.Legacy TbModel.loaded_words TbModel.set_tmem SimModel.io_is_console
+  TbModel.run TbModel.power_on TbModel.Current TbModel.Previous TbModel.Legacy TbModel.loaded_words TbModel.file_loads TbModel.tb_main TbModel.set_tmem SimModel.io_is_console
   TbModel.step_safe TbModel.wb_mon Isa.fetch SimModel.to_int
   SimModel.step SimModel.run SimModel.init SimModel.arch_of SimModel.trace_symbol SimModel.trace_prefix
+  SimIO.dev0 SimIO.step_dev SimIO.run_dev
   AsmModel.lex AsmModel.parse AsmLayout.assemble_directives AsmLayout.assemble AsmLayout.diag_location AsmLayout.codegen AsmLayout.emit_bin
   AsmLayout.num_nibbles AsmLayout.enc_size AsmLayout.emit_instr AsmLayout.instr_len
   AsmStatements.struct_listing Loader.load_file CliModel.hexasm_main CliModel.xcmp_main CliModel.hexsim_main CliModel.xrun_main
